@@ -835,7 +835,8 @@ def sql_view_names(ops, dialect="sqlite"):
 
 
 def sql_cases(chk, cases, rng, entries, nmax):
-    """table-only renamings to (a) one of the query's own view names, (b) a view-like name the query does not use, (c) a join alias"""
+    """table-only renamings to (a) one of the query's own view names, (b) a view-like name the query does not use, (c) a join alias,
+    (d) two tables to view-like names of one kind whose numbers differ in digit count"""
     terms, meta = [], []
     for case in cases:
         if len(terms) >= nmax:
@@ -853,12 +854,29 @@ def sql_cases(chk, cases, rng, entries, nmax):
             choices.append(rng.choice(views))
         choices.append(rng.choice(["extend_7", "project_9", "table_reference_8", "select_rows_11"]))
         choices.append(rng.choice(["join_source_left_0", "join_source_right_0", "join_source_left_1"]))
+        if len(tabs) >= 2 and views:
+            # two tables named like views whose numbers differ in digit count (9 / 10, 99 / 100, 7 / 12 ...): the numbering must start past the
+            # LARGEST number, and the view that would otherwise get the lower of the free numbers is of the kind chosen here
+            def vid(v):
+                m = re.match(r"^(.*)_(\d+)$", v)
+                return (int(m.group(2)), m.group(1)) if m else (10 ** 9, v)
+            kind = min(vid(v) for v in views)[1]
+            lo = rng.choice([9, 9, 99, 7, 5])
+            hi = {9: 10, 99: 100, 7: 12, 5: 10}[lo]
+            t1, t2 = rng.sample(tabs, 2)
+            choices.append({t1: f"{kind}_{lo}", t2: f"{kind}_{hi}"})
         for new in choices:
-            t = rng.choice(tabs)
-            if new in tabs:
-                continue
             rt = {x: x for x in tabs}
-            rt[t] = new
+            if isinstance(new, dict):
+                if set(new.values()) & set(tabs):
+                    continue
+                rt.update(new)
+                new = "+".join(sorted(new.values()))
+            else:
+                t = rng.choice(tabs)
+                if new in tabs:
+                    continue
+                rt[t] = new
             eff, detail, c2, r2 = oracle(case, rt, {}, "sqlite", base)
             if eff == "build_rejects":
                 continue
@@ -870,7 +888,60 @@ def sql_cases(chk, cases, rng, entries, nmax):
             terms.append(f"mkqc {clist([cstr(v) for v in v2])} {clist([cstr(x) for x in sorted(c2.frames)])} {cbool(captured)}")
             meta.append((case, rt, new, eff, detail, v2))
             chk.dist("sql_table_capture" if captured else "sql_table_clean")
+    # (e) fixed two-table templates x every kind of view the query generates x both assignments x digit-count pairs: run on every run
+    for case in pair_templates(rng):
+        base = case.result("sqlite")
+        if base[0] is None:
+            continue
+        try:
+            views, _ = sql_view_names(case.ops)
+        except Exception:      # noqa
+            continue
+        kinds = sorted({m.group(1) for m in (re.match(r"^(.*)_\d+$", v) for v in views) if m})
+        tabs = sorted(case.frames)
+        if len(tabs) != 2:
+            continue
+        for kind in kinds:
+            for lo, hi in ((9, 10), (99, 100), (3, 12)):
+                for t1, t2 in ((tabs[0], tabs[1]), (tabs[1], tabs[0])):
+                    rt = {t1: f"{kind}_{lo}", t2: f"{kind}_{hi}"}
+                    eff, detail, c2, r2 = oracle(case, rt, {}, "sqlite", base)
+                    if eff == "build_rejects":
+                        continue
+                    try:
+                        v2, _ = sql_view_names(c2.ops)
+                    except Exception:      # noqa
+                        continue
+                    captured = eff in ("raises", "wrong_result")
+                    terms.append(f"mkqc {clist([cstr(v) for v in v2])} {clist([cstr(x) for x in sorted(c2.frames)])} {cbool(captured)}")
+                    meta.append((case, rt, "+".join(sorted(rt.values())), eff, detail, v2))
+                    chk.dist("sql_pair_capture" if captured else "sql_pair_clean")
     return terms, meta
+
+
+def pair_templates(rng):
+    """two-table pipelines whose SQL defines views (CTEs) and reads BOTH tables: a view named like one of the tables would capture it"""
+    d1 = pipes.gen_table(rng, "d1", ncols=2, colnames=["k", "v"], types=("int",), unique_col=None, nrows=3, null_rate=0.0)
+    d2 = pipes.gen_table(rng, "d2", ncols=2, colnames=["k", "v"], types=("int",), unique_col=None, nrows=2, null_rate=0.0)
+    T1, T2 = {"op": "table", "name": "d1"}, {"op": "table", "name": "d2"}
+    ext = lambda src: {"op": "extend", "src": src, "ops": {"v": "v + 1"}}
+    shapes = [
+        {"op": "concat_rows", "src": ext(T1), "b": T2, "id_column": None, "a_name": "a", "b_name": "b"},
+        {"op": "concat_rows", "src": T1, "b": ext(T2), "id_column": None, "a_name": "a", "b_name": "b"},
+        {"op": "concat_rows", "src": ext(T1), "b": ext(ext(T2)), "id_column": "src", "a_name": "a", "b_name": "b"},
+        {"op": "natural_join", "src": ext(T1), "b": T2, "on": ["k"], "jointype": "LEFT"},
+        {"op": "natural_join", "src": {"op": "project", "src": T1, "ops": {"v": "v.sum()"}, "group_by": ["k"]}, "b": T2, "on": ["k"], "jointype": "INNER"},
+        {"op": "concat_rows", "src": {"op": "select_rows", "src": T1, "expr": "v >= 0"}, "b": {"op": "order_rows", "src": T2, "columns": ["k", "v"], "reverse": [], "limit": 5},
+         "id_column": None, "a_name": "a", "b_name": "b"},
+        {"op": "order_rows", "src": {"op": "concat_rows", "src": ext(T1), "b": T2, "id_column": None, "a_name": "a", "b_name": "b"}, "columns": ["k", "v"], "reverse": [], "limit": None},
+    ]
+    out = []
+    for sc in shapes:
+        try:
+            out.append(X.Case(sc, [d1, d2], pipes.build(sc, {"d1": d1, "d2": d2})))
+        except Exception:      # noqa
+            pass
+    return out
 
 
 # ------------------------------------------------------------------------------------------------ run
